@@ -10,8 +10,8 @@ MODES = ["w", "write", "o", "overwrite", "a", "+", "append", "ao", "oa", "o+", "
 BAD = ["", "r", "x", "W", "wa", "append-over", "ow", "A"]
 
 
-def gen_input(r, trees):
-    k = r.choice(["node", "node", "array", "dict", "metadata", "list"])
+def gen_input(r, trees, k=None):
+    k = k or r.choice(["node", "node", "array", "dict", "metadata", "list"])
     if k == "node":
         t = r.choice(list(trees))
         return {"src": t, "target": list(r.choice(gen.tree_paths(trees[t])))}
@@ -21,34 +21,38 @@ def gen_input(r, trees):
         return {"input": {"kind": "dict", "items": [[gen.gen_name(r, set()), gen.gen_md_value(r, 1, 2)] for _ in range(r.randrange(0, 3))]}}
     if k == "metadata":
         return {"input": {"kind": "metadata", "rec": gen.gen_metadata(r, set())}}
-    items = []
-    for _ in range(r.randrange(1, 4)):
-        c = r.choice(["root", "array", "dict"])
-        if c == "root":
-            items.append({"root": r.choice(list(trees))})
-        elif c == "array":
-            items.append({"array": gen.gen_arr(r, maxrank=1) | {"shape": [2]}})
-        else:
-            items.append({"dict": [["k", gen.gen_md_value(r, 2, 2)]]})
-    # a root may occur once only
-    seen, out = set(), []
-    for it in items:
-        if "root" in it:
-            if it["root"] in seen:
-                continue
-            seen.add(it["root"])
-        out.append(it)
-    return {"input": {"kind": r.choice(["list", "tuple"]), "items": out}}
+    # lists / tuples: roots, rooted direct children, arrays, dicts - including lists holding only rooted nodes and []
+    from harness.props import c10
+    c = r.random()
+    if c < 0.1:
+        return {"input": {"kind": r.choice(["list", "tuple"]), "items": []}}
+    if c < 0.35:
+        items = []
+        for tid in r.sample(list(trees), k=r.choice([1, 1, 2])):
+            kids = [k["name"] for k in trees[tid]["kids"]]
+            r.shuffle(kids)
+            for kn in kids[:r.choice([1, 2])]:
+                items.append({"node": [tid, [kn]]})
+        return {"input": {"kind": r.choice(["list", "tuple"]), "items": items}}
+    return {"input": c10.gen_list(r, trees, [])}
 
 
 def cases(tier, seed):
     n = 160 if tier == "quick" else 2500
+    # a grid over (old content) x (mode class) x (input kind) comes first, random cases after
+    r0 = common.case_rng(seed, PID, 0, "grid")
+    grid = [(o, mc, k) for o in ["absent", "emd", "junk", "foreign", "emd"] for mc in ["w", "o", "a", "ao", "bad"]
+            for k in ["node", "array", "dict", "metadata", "list", "list"]]
+    r0.shuffle(grid)
+    spell = {"w": ["w", "write"], "o": ["o", "overwrite"], "a": ["a", "+", "append"],
+             "ao": ["ao", "oa", "o+", "+o", "appendover"], "bad": BAD}
     for i in range(n):
         r = common.case_rng(seed, PID, i)
+        forced = grid[i] if i < len(grid) else None
         trees = {"T0": gen.gen_tree(r, rootname="R0", maxdepth=2, avoid_prefix=["R", "root"]),
                  "T1": gen.gen_tree(r, rootname="R1", maxdepth=2, avoid_prefix=["R", "root"]),
                  "OLD": gen.gen_tree(r, rootname=r.choice(["R0", "Rold", "root"]), maxdepth=2, avoid_prefix=["R", "root"])}
-        old = r.choice(["absent", "emd", "emd", "junk", "foreign"])
+        old = forced[0] if forced else r.choice(["absent", "emd", "emd", "junk", "foreign"])
         steps = []
         if old == "emd":
             steps.append({"do": "save", "path": "A", "src": "OLD", "target": [], "mode": "w", "tree": True, "emdpath": None})
@@ -56,9 +60,9 @@ def cases(tier, seed):
             steps.append({"do": "put", "path": "A", "junk": r.choice(["", "hello", "\x89HDF\r\n\x1a\nnot really", "x" * 3000])})
         elif old == "foreign":
             steps.append({"do": "puth5", "path": "A", "spec": r.choice(["empty", "attrs_only", "wrong_version", "no_roots", "group"])})
-        mode = r.choice(MODES) if r.random() < 0.85 else r.choice(BAD)
+        mode = r.choice(spell[forced[1]]) if forced else (r.choice(MODES) if r.random() < 0.85 else r.choice(BAD))
         opt = r.choice([True, True, False, None])
-        inp = gen_input(r, {k: trees[k] for k in ("T0", "T1")})
+        inp = gen_input(r, {k: trees[k] for k in ("T0", "T1")}, forced[2] if forced else None)
         steps.append({"do": "hash", "path": "A"})
         steps.append({"do": "walk", "path": "A"})
         steps.append(dict({"do": "save", "path": "A", "mode": mode, "tree": opt, "emdpath": None}, **inp))
@@ -73,7 +77,14 @@ def run_both(drv, case):
     iobs, msteps = hist.run_impl(case)
     hist.LAST["msteps"] = msteps
     mobs = hist.run_model(drv, msteps, len(iobs)) if drv is not None else None
-    return hist.canon_list(iobs), (hist.canon_list(mobs) if mobs is not None else None)
+    io, mo = hist.canon_list(iobs), (hist.canon_list(mobs) if mobs is not None else None)
+    # the byte hash after a save is only meaningful when the save was refused (a successful append may rewrite
+    # bytes without changing content): blank it on both sides otherwise
+    k = [i for i, s in enumerate(case["steps"]) if s["do"] == "hash"][0]
+    for lst in (io, mo):
+        if lst is not None and len(lst) > k + 3 and lst[k + 2] == {"ok": True} and "hash" in lst[k + 3]:
+            lst[k + 3] = {"hash": "-"}
+    return io, mo
 
 
 def blank_uuid(o):
